@@ -383,20 +383,34 @@ def attribution_oracle(ctx: Ctx):
     from aiohomekit.controller.coap.connection import CoAPHomeKitConnection
     rng = ctx.rng
 
+    class _Char:
+        """stands for a characteristic of the accessory database: the decoded value is the raw value, tagged"""
+        def __init__(self):
+            self.raw_value = None
+
+        @property
+        def value(self):
+            return ("decoded", bytes(self.raw_value))
+
     class _Info:
+        known = True
+
         def find_characteristic_by_iid(self, iid):
-            return None
+            return _Char() if self.known and iid % 3 else None
 
     conn = CoAPHomeKitConnection.__new__(CoAPHomeKitConnection)
     conn.info = _Info()
-    for _ in range(ctx.budget(300, 3000)):
+    for _ in range(ctx.budget(400, 4000)):
         n = rng.randrange(1, 7)
         ids = [(rng.choice([1, 2]), rng.randrange(1, 50)) for _ in range(n)]
         if len(set(ids)) != n:
             continue
-        results = [rng.choice([b"", cp.PDUStatus.INVALID_REQUEST, cp.PDUStatus.TID_MISMATCH, cp.PDUStatus.BAD_CONTROL, cp.PDUStatus.INSUFFICIENT_AUTHORIZATION]) for _ in range(n)]
+        conn.info.known = rng.random() < 0.6
+        # ok with an empty body, ok with a body that carries this item's own value (distinct per position), or an error
+        results = [rng.choice([b"", b"", bytes([1, 3, 0xA0 + i, i, rng.randrange(256)]), bytes([1, 1, i]), cp.PDUStatus.INVALID_REQUEST, cp.PDUStatus.TID_MISMATCH,
+                               cp.PDUStatus.BAD_CONTROL, cp.PDUStatus.INSUFFICIENT_AUTHORIZATION]) for i in range(n)]
         ctx.evaluations += 1
-        case = {"stream": "coap-attr", "ids": ids, "results": [r.value if not isinstance(r, bytes) else "ok" for r in results]}
+        case = {"stream": "coap-attr", "ids": ids, "results": [r.value if not isinstance(r, bytes) else "ok:" + hx(r) for r in results]}
         w = conn._write_characteristics_exit([(a, i, 0) for a, i in ids], results)
         want_w = {k: -r.value for k, r in zip(ids, results) if not isinstance(r, bytes)}
         if {k: v["status"] for k, v in w.items()} != want_w:
@@ -406,6 +420,16 @@ def attribution_oracle(ctx: Ctx):
         got_r = {k: (v["status"] if "status" in v else "value") for k, v in r.items()}
         if got_r != want_r:
             ctx.violation("coap/attribution-read", "read results are not keyed by the requested ids in order", case)
+        else:
+            # every successful item reports the value of its own response body - nothing carried over from a neighbour
+            for k, x in zip(ids, results):
+                if isinstance(x, bytes):
+                    own = bytes(x[2:])
+                    got_v = r[k].get("value")
+                    want_v = b"" if not x else (("decoded", own) if (conn.info.known and k[1] % 3) else own)
+                    if got_v != want_v:
+                        ctx.violation("coap/attribution-read-value", f"read of {ids} answered {case['results']}: the value reported for {k} is {got_v!r}, its own response body means {want_v!r}", case)
+                        break
         for name in ("_subscribe_to_exit", "_unsubscribe_from_exit"):
             if hasattr(conn, name):
                 s = getattr(conn, name)(ids, results)
